@@ -216,6 +216,12 @@ pub fn build_program(g: &GenCfg) -> Program {
         code.extend(build_body(&g.toks_pre, &mut b, 0, false, false, false, g.max_depth, &[], None, false));
         code.push(Item::Ins(Insn::new("jmp", vec![Opd::Name("pre_back".into())])));
     }
+    // one program in four has an ordinary label that spells start in another case, before everything else (labels are
+    // case sensitive: it is not the entry point)
+    if g.max_depth == 1 && !g.trailing_label && g.start_pos != 1 {
+        code.push(Item::Label(if g.with_data { "Start".into() } else { "START".into() }));
+        code.extend(marker(MARKERS[5 % MARKERS.len()]));
+    }
     // procedures: p_i may call p_j for j < i; each level uses counters above the callers' ones
     let np = g.procs.len();
     for (i, toks) in g.procs.iter().enumerate() {
